@@ -145,7 +145,7 @@ class Engine:
         s.stats = collections.Counter()
         s.t_solver = 0.0
         s.snapshot = None
-        s.redirect = {}; s.ufs = {}; s.sym_store_max = 1024
+        s.redirect = {}; s.ufs = {}; s.sym_store_max = 1024; s.depth_limit = 0
         s.unsat_cache = set(); s.check_seq = 0; s.trace = []; s.pos = 0; s.merge_depth = 0
         models.install(s)
 
@@ -158,6 +158,7 @@ class Engine:
         s.nsym = 0
         s.pos = 0
         s._model = None
+        s.depth_limit = 0; s._errno_obj = None
         s.check_seq = 0
         s.steps = 0
         s.exc = None; s.caught = []
@@ -1363,7 +1364,11 @@ def do_ret(E, fr, val):
     return True
 
 def push_call(E, cf, args, retslot, normal_to, unwind_to):
-    if len(E.frames) > 600: raise PathEnd('budget', 'call depth > 600')
+    if E.depth_limit and len(E.frames) > E.depth_limit:
+        E.depth_limit = 0
+        E.violation('assert', 'recursion depth exceeds the bound declared by the harness (call depth grows with input nesting)')
+        raise PathEnd('error', 'depth limit')
+    if len(E.frames) > 600 and not E.depth_limit: raise PathEnd('budget', 'call depth > 600')
     fr = Frame()
     fr.fn = cf; fr.regs = regs = [None] * cf.nregs
     if len(args) != len(cf.pslots) and not (cf.vararg and len(args) >= len(cf.pslots)): raise EngineError('arity mismatch calling ' + cf.name)
@@ -1664,9 +1669,21 @@ def run_ctors(E):
     E.take_snapshot()
 
 def load_modules(paths):
+    """several IR modules form one program; private/internal symbols are module-local, so they are renamed per module
+    (e.g. @.str.5 of two units must not be merged)"""
     mods = []
-    for p in paths:
-        mods.append(irparse.parse_module(open(p).read()))
+    for idx, p in enumerate(paths):
+        txt = open(p).read()
+        if len(paths) > 1:
+            local = set(re.findall(r'^@("[^"]+"|[\w.$-]+)\s*=\s*(?:private|internal)\b', txt, re.M))
+            local |= set(re.findall(r'^define\s+(?:private|internal)\b[^@\n]*@("[^"]+"|[\w.$-]+)\s*\(', txt, re.M))
+            if local:
+                def ren(mm):
+                    n = mm.group(1)
+                    if n not in local: return mm.group(0)
+                    return '@"%s.m%d"' % (n.strip('"'), idx) if n.startswith('"') else '@%s.m%d' % (n, idx)
+                txt = re.sub(r'@("[^"]+"|[\w.$-]+)', ren, txt)
+        mods.append(irparse.parse_module(txt))
     return mods
 
 import models
